@@ -535,6 +535,17 @@ def m_iter_next(ex, callee, args):
 def m_iter_nth(ex, callee, args):
     it = get_iter(args[0])
     n = args[1].v
+    if not isinstance(n, int):
+        # symbolic index: fork over 0..K-1 and ">= K" where K bounds what the source can yield
+        K = getattr(it.src, 'cap', None)
+        if K is None and hasattr(it.src, 'items'):
+            K = len(it.src.items)
+        if K is None:
+            raise Unsupported('nth() with a symbolic index on an unbounded iterator')
+        t = args[1].v
+        conds = [t == z3.BitVecVal(i, t.size()) for i in range(K)] + [z3.UGE(t, z3.BitVecVal(K, t.size()))]
+        k = ex.decide(conds)
+        n = k if k < K else K
     r = none()
     for _ in range(n + 1):
         r = iter_next(ex, it)
